@@ -52,8 +52,9 @@ def run(ctx):
 
     hists = []
     if quick:
-        hists += fp.gen_histories(ctx, "seq", 3)
-        hists += fp.gen_histories(ctx, "perm", 4, selmod=12)
+        hists += fp.gen_histories(ctx, "seq", 3, menun=17)      # every sequence of <= 3 calls over m01..m17
+        hists += fp.gen_histories(ctx, "seq", 2)                # every sequence of <= 2 calls over the whole menu
+        hists += fp.gen_histories(ctx, "perm", 4, selmod=12, menun=17)
         rnd, nshards = 1500, 4
     else:
         hists += fp.gen_histories(ctx, "seq", 4, menun=17)
